@@ -986,7 +986,7 @@ def move_imports_to_toplevel(source: str) -> str:
                 continue
             safe_position_lineno = min(module_import_linenos)
 
-        source_lines = source.splitlines()
+        source_lines = [line.rstrip("\r\n") for line in core.split_lines(source)]
         while safe_position_lineno > 1 and re.findall(r"^\s+", source_lines[safe_position_lineno]):
             safe_position_lineno -= 1
 
